@@ -2620,6 +2620,11 @@ class RockRidge:
 
         if px_record_length == 44 or sf_record_length == 21 or has_es_record or er_id == EXT_ID_112:
             self.rr_version = '1.12'
+        elif px_record_length is None and sf_record_length is None and er_id is None and (continuation or entry_list.ce_record is not None):
+            # Nothing in this area tells the version; the entries that do
+            # (PX in particular) live in the other area of this record, so
+            # keep what that area says.
+            pass
         else:
             # Not 1.12, so either 1.09 or 1.10.
             if sf_record_length == 12:
